@@ -17,6 +17,10 @@ CLAIMED = {
  'C12': 'try_unwrap / make_mut (3 branches) / get_mut / raw round trips / increment-decrement_strong_count on every object of adoption graphs, then the remaining handles dropped: no table keeps naming a given-up block, no monitor event, no leaked table',
  'C13': 'histories where a recorded handle is taken out of its owner without unadopt (kept or dropped): no reachable object destroyed, no monitor event; the by-design violation is a listed finding keyed by cause, any other mechanism is reported',
  'C16': 'unit: Rc::clone over all 2^64 counter values aborts exactly for 0, MAX-1, MAX and otherwise adds one (z3); scenario: every member destructor of every group shape clones each handle it holds - every path through a clone of a dead handle ends in abort, dropping one changes nothing',
+ 'C07': 'differential: every program of <=2 (3) shared-API calls from 4 adoption-free base states runs in the MIR executor and in a reference model of std::rc written from the std documentation; z3 decides equality of every returned value and of the destructor sequence under each path condition; disagreements are replayed against the real std::rc::Rc',
+ 'C09': 'product check: the same script under several layouts (rank orders, and every per-table order on small shapes); for every pair of paths whose conditions are jointly satisfiable the per-operation destroyed sets and observed counts must be equal (z3); includes histories with a panicking destructor',
+ 'C14': 'for objects whose bookkeeping is empty at the time of the call (never adopted / fully unadopted / stored inside adopted ones): the number of trace calls and allocation events inside clone/drop is 0 on every path, for all values of the symbolic handle counts; a vacuity witness with a recorded adoption must be seen to trace',
+ 'C15': 'bounded: for rings, cliques, chords and self adoptions of N=1..4 (6) the nesting depth of Rc::drop / interpreter frames does not grow with N and each trace expands every object at most twice; beyond that size a native run (ring of 200 000 objects on a 128 KiB stack, time ratio N vs 2N) is a confirmation, not a solver verdict',
  'C08': 'after every operation the link tables of every live object equal, entry by entry, the graph implied by the adopt/unadopt calls; no zero entry; no entry naming a destroyed object',
 }
 m = json.load(open('MANIFEST.json')) if False else {}
